@@ -36,7 +36,10 @@ TRUST = [
 
 
 def field_names():
-    s = open(os.path.join(vlib.GEN, "GenFields.v")).read()
+    p = os.path.join(vlib.GEN, "GenFields.v")
+    if not os.path.exists(p):      # the translator refused the source: the committed snapshot names the fields for the Go-side falsifiers
+        p = os.path.join(vlib.COQ, "Snapshot", "GenFields.v")
+    s = open(p).read()
     return re.findall(r'\(\d+%N, "([^"]+)"%string', s)
 
 
@@ -143,14 +146,14 @@ def run_shard(harness, drivers, names, seed, variants, multi, idx):
     return r
 
 
-def correspondence(ck, pid):
+def correspondence(ck, pid, have_models=True):
     """tie + falsifiers. Returns dict(results, ok)"""
     harness, herr = vlib.build_harness()
     if harness is None:
         ck.oblige("build Go harness against the tree under test", False, herr)
         return None
     drivers = {}
-    for mod in ("GenCpu65", "GenCpuAlt"):
+    for mod in (("GenCpu65", "GenCpuAlt") if have_models else ()):
         exe, log = build_driver(mod)
         ck.oblige("extract %s to OCaml and build the lockstep driver" % mod, exe is not None, log)
         if exe:
@@ -187,7 +190,9 @@ def common(ck, pid):
     ck.trusted = list(TRUST)
     os.makedirs(vlib.RUN, exist_ok=True)
     models = prepare_models(ck)
-    corr = correspondence(ck, pid) if models else None
+    # without models (the translator refused the source) the Go-side falsifiers of the case generator still run: a
+    # refusal must not silence them
+    corr = correspondence(ck, pid, have_models=bool(models))
     tie_ok, stats = (False, {})
     if corr:
         tie_ok, stats = report_tie(ck, pid, corr)
@@ -594,7 +599,7 @@ def run_c12(ck):
         if rows:
             ck.sample({"rununtil_case(target,maxc,result,steps,trajectory)": rows[0][:300]})
     # the callbacks clause stated directly on the two real interpreters (harness/cbtool.go)
-    if harness and models:
+    if harness:     # also when the translator refused the source: the falsifier needs the real CPUs only
         ncb = 20000 if ck.tier == "thorough" else 2500
         names = field_names()
         shards = vlib.parallel([(lambda i=i: vlib.sh([harness, "cbclause", "-seed", str(ck.seed * 100 + i), "-n", str(ncb), "-fields", ",".join(names)], timeout=1200)) for i in range(4)])
